@@ -67,6 +67,11 @@ InitSeeded(P) == /\ prog \in P /\ text = << >> /\ phase = "text" /\ bpos = "pass
                  /\ stream = << >> /\ slot = << >> /\ nextid = 1 /\ pass = 1 /\ cur = 1 /\ fired = 0 /\ stuck = FALSE
         /\ feats = [f \in 1..NFeat |-> 0] /\ cfeats = [f \in 1..NFeat |-> 0]
 
+\* alternative start: fixed programs with fixed (long) texts
+InitSeededTexts(P, T) == /\ prog \in P /\ text \in T /\ phase = "text" /\ bpos = "pass"
+                         /\ stream = << >> /\ slot = << >> /\ nextid = 1 /\ pass = 1 /\ cur = 1 /\ fired = 0 /\ stuck = FALSE
+                         /\ feats = [f \in 1..NFeat |-> 0] /\ cfeats = [f \in 1..NFeat |-> 0]
+
 CurPass == prog[Len(prog)]
 CurRule == CurPass.rules[Len(CurPass.rules)]
 SetCurRule(r) == [prog EXCEPT ![Len(prog)].rules[Len(CurPass.rules)] = r]
